@@ -12,12 +12,13 @@ EXPLANATION = ("Structural necessary conditions of C21, decided over the MIR pat
                "hands every rule text the reader returned, in order, to the rule parser and adds the parsed rule to the "
                "knowledge base it was given; (R3) the reader appends every line it keeps, in order and once, to the text it "
                "hands to the rule splitter; (R4) the splitter does not return Ok without looking whether text is left over (a last "
-               "rule without its period). Decides these shapes, not the equality of the two ways of loading on every "
+               "rule without its period) and, inside its loop, never lets the text of a piece decide whether the piece is kept. Decides these shapes, not the equality of the two ways of loading on every "
                "text: comment stripping, line joining and the splitting at periods are value-level and not decided.")
 RULES = ("R1 no failure of a fallible step is skipped in the loader family (Err / check message => error return, no further "
          "loop trip); R2 loader wiring: reader(file) -> for each text in order -> rule parser -> insertion into the given "
          "knowledge base; R3 reader wiring: every kept line appended once, in order, to the text given to the splitter; R4 the "
-         "splitter looks whether the text it is still collecting is empty before it returns Ok")
+         "splitter looks whether the text it is still collecting is empty before it returns Ok, and no branch inside its loop "
+         "tests the text being collected")
 TRUSTED = ["rustc nightly MIR construction", "bounded unrolling: each loop body is walked up to 2 times per path"]
 
 KB_TY = "HashMap<std::string::String, std::vec::Vec<rule::Rule>>"
@@ -297,6 +298,25 @@ def run(ctx):
         if not is_splitter:
             continue
         n_split += 1
+        # R4 (second half): whether a piece cut at a separator is kept does not depend on the piece.  Inside its loop the
+        # splitter looks at the current character and its counters only; a branch there on the text being collected (its
+        # length, its trimmed form, what was taken out of it) decides per piece whether it reaches the result.
+        ok5, why5, n5 = True, "", 0
+        for p in sps:
+            collectors = {strip(e["args"][0]) for e in p.events if e["k"] == "call" and e["callee"].endswith("String::push") and e["bb"] in inloop}
+            if not collectors:
+                continue
+            for e in p.events:
+                if e["k"] != "branch" or e["bb"] not in inloop:
+                    continue
+                n5 += 1
+                c = strip(e["cond"])
+                if mentions(c, lambda y: y in collectors) or c in collectors:
+                    ok5, why5 = False, ("inside the splitting loop a branch at line %d tests the text being collected (%s): whether a piece "
+                                        "cut at a separator reaches the result depends on the piece, so some text of the file can be dropped "
+                                        "without an error" % (e["line"], show(c)[:70]))
+        ctx.ob("R4", "cut-pieces-kept-whatever-they-hold(%s)" % Sp.npath, ok5 and n5 > 0, ctx.where(Sp), why5 or
+               "none of the %d branch decisions inside the splitting loop looks at the text being collected" % n5)
         ctx.ob("R4", "leftover-is-looked-at(%s)" % Sp.npath, ok4 and n4 > 0, ctx.where(Sp), why4 or
                "every Ok return follows a test of the emptiness of the text still being collected (%d path(s))" % n4)
     shape4 = any(has_loop_with(b_, ("push",)) and any((t["callee"].get("path") or "").endswith("String::push") for i, t in b_.calls()) for b_ in fam)
